@@ -368,6 +368,7 @@ impl Future for Server {
                                     this.arrival += 1;
                                     let token = request_token(&req.op).unwrap_or_else(|| format!("#{}", this.arrival - 1));
                                     world::with(|w| {
+                                        w.srv_ids_by_token.insert(token.clone(), req.id as i32);
                                         w.requests.push(req.clone());
                                         w.stats.bump(&format!("srv.req.{}", req.op.kind()));
                                         w.ev(EvKind::SrvRecv {
